@@ -421,6 +421,9 @@ def check_weight_gradient(ctx, est):
     w = f.args.args[0].arg
     defs = {s.targets[0].id: s for s in ast.walk(f) if isinstance(s, ast.Assign) and len(s.targets) == 1 and isinstance(s.targets[0], ast.Name)}
     ds = [s for s in defs.values() if isinstance(s.value, ast.Call) and U(s.value.func) == 'Dataset']
+    if not ds:
+        raise AnalysisError('PublicInference.estimate: the candidate marginals in `%s` are not computed from a Dataset of the public records '
+                            '(another construction of the weighted marginals and of the gradient pull-back is neither confirmed nor refuted)' % f.name)
     ok = len(ds) == 1 and [U(a) for a in ds[0].value.args] == ['self.public_data.df', 'self.public_data.domain', w]
     if not ok and len(ds) == 1 and len(ds[0].value.args) == 3:
         # the candidate may be built on a column projection of the public data (same records, fewer columns): P.df, P.domain with
@@ -441,6 +444,8 @@ def check_weight_gradient(ctx, est):
         body = loops[0].body
         idx = [s for s in body if isinstance(s, ast.Assign)]
         acc = [s for s in body if isinstance(s, ast.AugAssign)]
+        if not (len(idx) == 1 and len(acc) == 1):
+            raise AnalysisError('PublicInference.estimate: the pull-back of the marginal gradient onto the records in `%s` is in no recognised form' % f.name)
         if len(idx) == 1 and len(acc) == 1:
             where = acc[0]
             i = idx[0].targets[0].id
